@@ -12,11 +12,36 @@
 //                                        then <nmsg> generated asyncs per rank + broadcasts; lines
 //                                        "sent <uid> <dest|-1> <hidx> x<fn> | N <types> | <values>" and
 //                                        "recv <uid> <hidx> <value ok> <functor ok> <comm ok> <fnv of value tokens>"
+//   wire probe <a|b> <seed>             one message with a 16-byte function object (a: async to the last rank,
+//                                        b: async_bcast) -> "precv <uid> <value ok> <functor ok>"; also the only
+//                                        mode of the small -DWIRE_PROBE_ONLY build (compiled at -O0 by the check)
+//   wire traffic ... <sb>                sb=1: broadcasts also use handler types with functor state
 #include "hcommon.hpp"
 #include <ygm/comm.hpp>
+#include <cstring>
+
+// ----------------------------------------------------------------- probe (shared by both builds)
+namespace probe {
+static uint8_t pbyte(uint64_t uid, size_t i) { return (uint8_t)((uid * 0x9e3779b97f4a7c15ULL >> (8 * (i % 8))) + 31 * i); }
+struct PF { uint8_t st[16];
+  void operator()(uint64_t uid, const int8_t& v) { bool fok = true; for (size_t i = 0; i < 16; ++i) fok = fok && st[i] == pbyte(uid, i);
+    hc::out("precv " + std::to_string(uid) + " " + (v == (int8_t)(uid % 100) ? "1" : "0") + " " + (fok ? "1" : "0")); } };
+static int run(int argc, char** argv) {
+  ygm::comm world(MPI_COMM_WORLD); hc::open_out(world.rank());
+  bool bc = argc > 2 && argv[2][0] == 'b'; uint64_t uid = argc > 3 ? strtoull(argv[3], 0, 10) : 42;
+  PF f; for (size_t i = 0; i < 16; ++i) f.st[i] = pbyte(uid, i);
+  world.barrier();
+  if (world.rank() == 0) { if (bc) world.async_bcast(f, uid, (int8_t)(uid % 100)); else world.async(world.size() - 1, f, uid, (int8_t)(uid % 100)); }
+  world.barrier();
+  hc::out("done");
+  return 0; }
+}  // namespace probe
+
+#ifdef WIRE_PROBE_ONLY
+extern "C" int sim_main(int argc, char** argv) { return probe::run(argc, argv); }
+#else
 #include <ygm/detail/cereal_boost_json.hpp>
 #include <ygm/detail/ygm_ptr.hpp>
-#include <cstring>
 #include <fstream>
 #include <limits>
 #include <map>
@@ -36,7 +61,7 @@ static bool get_hex(const std::string& s, std::vector<std::byte>& out) {
   for (size_t i = 1; i + 1 < s.size(); i += 2) out.push_back((std::byte)(v(s[i]) * 16 + v(s[i + 1]))); return true; }
 
 // ----------------------------------------------------------------- globals of one rank process
-struct Ctx { uint64_t seed = 1; size_t big = 300; int rank = 0; int nranks = 1; ygm::comm* comm = nullptr; } ctx;
+struct Ctx { uint64_t seed = 1; size_t big = 300; int rank = 0; int nranks = 1; ygm::comm* comm = nullptr; bool stateful_bcast = true; } ctx;
 static const int NPTR = 5;
 static int g_pool[NPTR];
 static std::vector<ygm::ygm_ptr<int>>& ptrs() { static std::vector<ygm::ygm_ptr<int>> p; return p; }
@@ -209,6 +234,7 @@ static void read_lines(const char* path, std::vector<std::vector<std::string>>& 
 
 extern "C" int sim_main(int argc, char** argv) {
   std::string mode = argc > 1 ? argv[1] : "shapes";
+  if (mode == "probe") return probe::run(argc, argv);
   auto ops = make_ops(std::make_index_sequence<NSHAPES>{});
   if (mode == "shapes" || mode == "ser" || mode == "load") {
     hc::open_out(0);
@@ -217,8 +243,9 @@ extern "C" int sim_main(int argc, char** argv) {
     ctx.seed = strtoull(argv[2], 0, 10); ctx.big = strtoull(argv[3], 0, 10);
     std::vector<std::vector<std::string>> cases; read_lines(argv[4], cases);
     for (auto& c : cases) {
+      if (c.size() < 3) continue;
       uint64_t k = strtoull(c[0].c_str(), 0, 10); size_t s = strtoull(c[1].c_str(), 0, 10), sz = strtoull(c[2].c_str(), 0, 10);
-      if (s >= ops.size()) continue;
+      if (c.size() < 3 || s >= ops.size()) continue;
       if (mode == "ser") hc::out("case " + c[0] + " " + c[1] + " " + c[2] + " " + ops[s].ser(k, sz));
       else { std::vector<std::byte> b; if (c.size() < 4 || !get_hex(c[3], b)) { hc::out("load " + c[0] + " bad-hex"); continue; } hc::out("load " + c[0] + " " + ops[s].load(k, sz, b)); }
     }
@@ -226,10 +253,12 @@ extern "C" int sim_main(int argc, char** argv) {
   }
   // ---- traffic
   ctx.seed = strtoull(argv[2], 0, 10); ctx.big = strtoull(argv[3], 0, 10); long nmsg = atol(argv[4]);
+  ctx.stateful_bcast = argc > 5 ? atoi(argv[5]) != 0 : true;
   ygm::comm world(MPI_COMM_WORLD); ctx.comm = &world; ctx.rank = world.rank(); ctx.nranks = world.size();
   hc::open_out(world.rank());
   for (int i = 0; i < NPTR; ++i) { g_pool[i] = pool_value(ctx.rank, i); ptrs().push_back(world.make_ygm_ptr(g_pool[i])); }
   auto hs = make_handlers(std::make_index_sequence<NSHAPES>{});
+  if (!ctx.stateful_bcast) for (auto& h : hs) if (h.hidx % 2 == 1) h.bcast_ok = false;   // odd handler types carry functor state
   world.barrier();
   // calibration: one message of every handler type, alone in its buffer, rank 0 -> last rank
   const uint64_t CAL = 1ULL << 62, CALB = 3ULL << 61;
@@ -252,3 +281,4 @@ extern "C" int sim_main(int argc, char** argv) {
   hc::out("done");
   return 0;
 }
+#endif  // WIRE_PROBE_ONLY
